@@ -10,7 +10,7 @@ class Prop(WalletProp):
             "in Coq every string of the filtered output is checked not to be one of the unfiltered secrets (mnemonic, passphrase, BIP85 values, "
             "extended private keys, WIFs), not to decode to a WIF / extended private key, and to be a leaf of the unfiltered data; every public datum of "
             "the unfiltered data (path, pub, rows minus the last column) must still be present. ParCli: main() run in-process with --paranoia, incl. empty "
-            "and reversed intervals: stdout contains none of the wallet's secrets (requested and default account/interval) and all requested public "
+            "and reversed intervals, with and without --file: stdout and the file contain none of the wallet's secrets (requested and default account/interval) and all requested public "
             "addresses. Non-trivial = distinct (case, output).")
 
     def gen_cases(self, rng, tier):
@@ -40,4 +40,8 @@ class Prop(WalletProp):
         for iv, acc, t in ((("0", "2"), None, False), (("5", "5"), "3", False), (("9", "4"), None, True), (("0", "0"), "1", True)):
             cases.append({"kind": "ParCli", "v": {"cmd": "from-mnemonic", "secret": mn, "password": "pw " + str(iv[0]), "interval": iv,
                                                   "account": acc, "testnet": t}})
+        # ... and with --file: what is written to the file is filtered too
+        for iv, acc, t in ((("1", "3"), "2", False), (("4", "4"), None, True)):
+            cases.append({"kind": "ParCli", "file": True, "v": {"cmd": "from-mnemonic", "secret": mn, "password": "file pw " + iv[0], "interval": iv,
+                                                                "account": acc, "testnet": t}})
         return cases
